@@ -116,6 +116,30 @@ func check(c Case, o *vf.Obs) error {
 	if got := solver.New(pb2).CountModels(); got != len(truth) {
 		return fmt.Errorf("after DetectAtMostOne CountModels = %d, the problem has %d models", got, len(truth))
 	}
+	// the same consequences under the cutting-planes strategy, which is what the command line tool combines
+	// detection with
+	pbc := build(c)
+	if pbc.Status != solver.Unsat {
+		pbc.DetectAtMostOne()
+	}
+	sc := solver.New(pbc)
+	sc.CuttingPlanes = true
+	if st := sc.Solve(); (st == solver.Sat) != (len(truth) > 0) {
+		return fmt.Errorf("after DetectAtMostOne, Solve with the cutting-planes strategy = %v, the problem has %d models", st, len(truth))
+	} else if st == solver.Sat {
+		if m := oracle.MaskOf(sc.Model()); !oracle.AllTrue(sems, m) {
+			return fmt.Errorf("after DetectAtMostOne, the model found with the cutting-planes strategy violates a constraint of the problem")
+		}
+	}
+	pbc2 := build(c)
+	if pbc2.Status != solver.Unsat {
+		pbc2.DetectAtMostOne()
+	}
+	sc2 := solver.New(pbc2)
+	sc2.CuttingPlanes = true
+	if got := sc2.CountModels(); got != len(truth) {
+		return fmt.Errorf("after DetectAtMostOne, CountModels with the cutting-planes strategy = %d, the problem has %d models", got, len(truth))
+	}
 	if c.Cost != nil {
 		pb3 := build(c)
 		if pb3.Status != solver.Unsat {
@@ -284,6 +308,34 @@ func genCase(front string) func(t *rapid.T) Case {
 			for i, k := 0, rapid.IntRange(0, 2).Draw(t, "extra"); i < k; i++ {
 				c.Extra = append(c.Extra, gen.PBConstr(t, c.N, gen.PBOpts{MaxArity: 5}, false))
 			}
+			if c.N >= 3 && gen.Chance(t, 1, 3, "shrinksToTwo") {
+				// a weighted constraint that the facts of the problem shrink to two literals, one of them heavier than the
+				// other (what is left is not a binary clause), over members of the cliques, with the fact it depends on
+				var members []int
+				for _, cl := range c.Clauses {
+					if len(cl) == 2 {
+						members = append(members, cl...)
+					}
+				}
+				if len(members) >= 2 {
+					a := members[gen.Uniform(t, 0, len(members)-1, "a")]
+					b := members[gen.Uniform(t, 0, len(members)-1, "b")]
+					f := gen.Lit(t, c.N, "fact")
+					if abs(a) != abs(b) && abs(a) != abs(f) && abs(b) != abs(f) {
+						w := rapid.IntRange(2, 3).Draw(t, "heavy")
+						ls, co := []int{a, b, -f}, []int{w, 1, 1}
+						if rapid.Bool().Draw(t, "factInTheMiddle") {
+							ls, co = []int{a, -f, b}, []int{w, 1, 1}
+						}
+						c.Extra = append(c.Extra, gen.PC{Kind: "gteq", Lits: ls, Coefs: co, K: w})
+						c.Extra = append(c.Extra, gen.PC{Kind: "gteq", Lits: []int{f}, Coefs: []int{1}, K: 1})
+						if rapid.Bool().Draw(t, "factFirst") {
+							c.Extra[len(c.Extra)-1], c.Extra[len(c.Extra)-2] = c.Extra[len(c.Extra)-2], c.Extra[len(c.Extra)-1]
+						}
+						c.Shapes = append(c.Shapes, "weighted-constraint-shrinking-to-two-literals")
+					}
+				}
+			}
 		}
 		if gen.Chance(t, 1, 3, "cost") {
 			cf := gen.CostFunc(t, c.N, false)
@@ -299,6 +351,13 @@ func genCase(front string) func(t *rapid.T) Case {
 	}
 }
 
+func abs(a int) int {
+	if a < 0 {
+		return -a
+	}
+	return a
+}
+
 func min(a, b int) int {
 	if a < b {
 		return a
@@ -307,11 +366,11 @@ func min(a, b int) int {
 }
 
 func init() {
-	tail := ": 1..4 building blocks (complete cliques of 2..5 literals of one or mixed polarity, clique minus one edge, two overlapping cliques, repeated binary clause, loose binary clauses, longer clauses, sometimes a unit clause; in a third of the cases the shared clique-rich generator over 6..12 variables, whose extra family is an at-most-one group of 5..7 variables with clauses over most of the group and clauses linking it to other variables), clause order shuffled, optional cost function; oracle = truth table of the clauses as written; the parsed problem is evaluated (without solving) from its exported data before and after DetectAtMostOne: same variables, same model set; then Solve / CountModels / Optimal after detection equal the truth; non-trivial = detection changed the problem"
+	tail := ": 1..4 building blocks (complete cliques of 2..5 literals of one or mixed polarity, clique minus one edge, two overlapping cliques, repeated binary clause, loose binary clauses, longer clauses, sometimes a unit clause; in a third of the cases the shared clique-rich generator over 6..12 variables, whose extra family is an at-most-one group of 5..7 variables with clauses over most of the group and clauses linking it to other variables), clause order shuffled, optional cost function; oracle = truth table of the clauses as written; the parsed problem is evaluated (without solving) from its exported data before and after DetectAtMostOne: same variables, same model set; then Solve / CountModels / Optimal after detection equal the truth, with the default strategy and (Solve, CountModels) with the cutting-planes strategy; non-trivial = detection changed the problem"
 	vf.Register(
 		vf.Sub[Case]{Name: "cnf", Quick: 4000, Thorough: 200000, Gen: genCase("cnf"), Check: check, Floor: 0.25, Rule: "CNF n in 3..9 via ParseSliceNb" + tail},
 		vf.Sub[Case]{Name: "big-group-search", Quick: 8000, Thorough: 300000, Gen: genBigGroup, Check: check, Floor: 0.8, Rule: "CNF over 7..12 variables via ParseSliceNb: one pairwise-encoded at-most-one group of 5..7 variables, 1..2 long clauses over most of the group (members of either sign, some outsiders), 2..7 clauses of 2..3 literals over all variables, clause order shuffled: the detected constraint is the reason of most propagations during the search that Solve and CountModels perform after detection" + tail},
-		vf.Sub[Case]{Name: "pb", Quick: 2000, Thorough: 100000, Gen: genCase("pb"), Check: check, Floor: 0.2, Rule: "the same clauses given as PropClause constraints plus 0..2 PB constraints via ParsePBConstrs" + tail},
+		vf.Sub[Case]{Name: "pb", Quick: 2000, Thorough: 100000, Gen: genCase("pb"), Check: check, Floor: 0.2, Rule: "the same clauses given as PropClause constraints plus 0..2 PB constraints (in a third of the cases also a weighted constraint over clique members that a unit constraint shrinks to two literals of different weights) via ParsePBConstrs" + tail},
 	)
 }
 
@@ -321,5 +380,5 @@ func TestProp(t *testing.T)   { vf.RunAll(t) }
 func TestReplay(t *testing.T) { vf.ReplayEnv(t) }
 
 // native fuzz targets (thorough tier): the fuzzer mutates the byte stream that rapid decodes into generator choices
-func FuzzDetect(f *testing.F) { vf.FuzzNamed(f, "C15", "cnf") }
+func FuzzDetect(f *testing.F)   { vf.FuzzNamed(f, "C15", "cnf") }
 func FuzzBigGroup(f *testing.F) { vf.FuzzNamed(f, "C15", "big-group-search") }
